@@ -400,6 +400,9 @@ pub enum SourceSpec {
     /// the same, handed to flute at a non-zero position (permille of its length; 1000 = at its end):
     /// the application sniffed a header, measured the length by seeking to the end, or reuses the stream
     StreamAt(ReadSched, u32),
+    /// the n-th seek() of the stream fails ONCE with an I/O error (a disk error at the moment a transfer starts and the
+    /// source is rewound); the stream works again afterwards
+    StreamFailingSeek(ReadSched, u32),
     /// real temp file (cache_in_ram = false)
     File,
     /// real temp file read into RAM by flute (cache_in_ram = true)
@@ -544,6 +547,11 @@ impl ObjectSpec {
                     .config(cfg)
                     .build()
                     .create(),
+                SourceSpec::StreamFailingSeek(sched, nth) => {
+                    let mut s = SimStream::new(data, sched.clone());
+                    s.fail_seek_nth = Some(*nth);
+                    CreateFromStream::builder().stream(Box::new(s)).content_type(self.ctype.clone()).content_location(url).compute_md5(self.md5).config(cfg).build().create()
+                }
                 SourceSpec::StreamAt(sched, permille) => {
                     let mut s = SimStream::new(data, sched.clone());
                     s.pos = (s.data.len() as u64 * (*permille).min(1000) as u64 + 999) / 1000;
@@ -581,6 +589,11 @@ impl ObjectSpec {
                 s.pos = (s.data.len() as u64 * (*permille).min(1000) as u64 + 999) / 1000;
                 ObjectDesc::create_from_stream(Box::new(s), &self.ctype, &url, self.md5, cfg)
             }
+            SourceSpec::StreamFailingSeek(sched, nth) => {
+                let mut s = SimStream::new(data, sched.clone());
+                s.fail_seek_nth = Some(*nth);
+                ObjectDesc::create_from_stream(Box::new(s), &self.ctype, &url, self.md5, cfg)
+            }
             SourceSpec::File | SourceSpec::FileInRam => {
                 let path = scratch.join(format!("src-{}.bin", idx));
                 std::fs::write(&path, &data).map_err(|e| format!("write temp {:?}", e))?;
@@ -612,6 +625,8 @@ pub struct SimStream {
     rng: Rng,
     pub reads: u64,
     buf_left: usize,
+    seeks: u32,
+    pub fail_seek_nth: Option<u32>,
 }
 
 impl SimStream {
@@ -627,6 +642,8 @@ impl SimStream {
             rng: Rng::new(seed),
             reads: 0,
             buf_left: 0,
+            seeks: 0,
+            fail_seek_nth: None,
         }
     }
 }
@@ -668,6 +685,10 @@ impl Read for SimStream {
 
 impl Seek for SimStream {
     fn seek(&mut self, pos: SeekFrom) -> std::io::Result<u64> {
+        self.seeks += 1;
+        if self.fail_seek_nth == Some(self.seeks) {
+            return Err(std::io::Error::new(std::io::ErrorKind::Other, "simulated I/O error on seek"));
+        }
         let np: i128 = match pos {
             SeekFrom::Start(p) => p as i128,
             SeekFrom::End(o) => self.data.len() as i128 + o as i128,
